@@ -6,7 +6,8 @@
     yields a positive resolution for every tile matrix set whose extent spans at least 2^deepest units
     (otherwise the Go code divides by zero, which the model reports as [Err DivZero]). *)
 From Coq Require Import ZArith List Bool.
-From Texel Require Import Prelude.Base Index.Model Index.ProofsInsert Snap.Model Snap.ProofsOutside.
+From Texel Require Import Prelude.Base Index.Model Index.ProofsInsert Index.ProofsGen Snap.Model Snap.ProofsOutside.
+From Texel.Gen Require Import PointIndexGen.
 Import ListNotations.
 Open Scope Z_scope.
 
@@ -41,6 +42,14 @@ Theorem C09_inside_is_snapped : forall g P levels cfg, 0 < gres g ->
   exists hs, insertPolygon g P = Ok hs /\ snapPolygon g P levels cfg = snapIndexed g hs P levels cfg.
 Proof. exact snap_inside. Qed.
 Print Assumptions C09_inside_is_snapped.
+
+(** tie G2: the address computation of InsertPoint and the range test of InsertCoord REGENERATED from
+    pointindex.go on this run are the model's [deepestCoord] and [inGridCoord] (floor division included) *)
+Theorem C09_source_tie :
+  (forall g p, 0 < gres g -> gen_InsertPoint_coord (ix_of g) p = deepestCoord g p) /\
+  (forall g x y, gen_InsertCoord_outside (ix_of g) x y = negb (inGridCoord g (x, y))).
+Proof. split; [exact gen_InsertPoint_coord_spec | exact gen_InsertCoord_outside_spec]. Qed.
+Print Assumptions C09_source_tie.
 
 (** non-vacuity / regression of F2: grid 32x32 px of 0.5 at the origin; a vertex 0.2 left of the
     border (less than one pixel outside) is rejected, a vertex exactly on the left border is accepted,
